@@ -116,7 +116,7 @@ func checkC10() fw.Check {
 			var cases []fw.Case
 			wins := []window{{1, 6}, {250, 255}}
 			if tier == "thorough" {
-				wins = []window{{1, 6}, {250, 255}, {2, 12}, {1, 3}, {255, 255}}
+				wins = append([]window{{1, 6}, {250, 255}, {2, 12}, {1, 3}, {255, 255}}, thoroughWindows(seed, 5)[len(windowsThorough):]...)
 			}
 			for _, v := range refmatch.Variants {
 				for _, w := range wins {
